@@ -67,7 +67,7 @@ def space(maxlen):
     for ms in SETS:
         n = len(items_for(ms)[0])
         for style in (False, True):
-            for L in range(1, maxlen + 1):
+            for L in range(1, (maxlen if ms == 0 else min(maxlen, 3)) + 1):
                 for idxs in itertools.product(range(n), repeat=L):
                     for j in range(len(JOINERS)):
                         if L == 1 and j > 0:
@@ -112,7 +112,7 @@ def run(tier, v):
     pool.close()
     v.count(agg["n"])
     v.coverage["distinct_nontrivial"] += agg["distinct"]
-    v.subspace("all sequences of 1..%d items from 27 decoys + 2 real statements x joiner {newline, blank, nothing} x tail {none, newline, "
+    v.subspace("all sequences of 1..%d items (other macro sets than the default: 1..3) from 27 decoys + 2 real statements x joiner {newline, blank, nothing} x tail {none, newline, "
                "line comment at EOF without newline} x macro set {default, two-segment module, non-ASCII module and name, three modules with different names (+ 6 cross-pair decoys)} x style" % maxlen, agg["n"], exhaustive=True,
                sequences_containing_real_statements=agg["nonvacuous"])
     for s in agg["samples"]:
